@@ -505,6 +505,45 @@ func runR94(c *core.Ctx) {
 
 func runR95(c *core.Ctx) {
 	pv := &ssax.Prov{}
+	// (a0) std.GetLocal hands on the expiry exactly as it was read from the reply: no arithmetic in between (the value
+	// is the backend's remaining lifetime; rewriting it here changes what the back-fill stores in L1)
+	if gl := c.P.Func("handlers/memcached/std", "GetLocal"); gl == nil {
+		c.Undecided("R9.5", "std.GetLocal#expiry-as-read", "-", "anchor not found")
+	} else {
+		var bad []string
+		n := 0
+		for _, r := range ssax.Returns(gl) {
+			if len(r.Results) < 4 {
+				continue
+			}
+			n++
+			var walk func(v ssa.Value, d int)
+			seen := map[ssa.Value]bool{}
+			walk = func(v ssa.Value, d int) {
+				if v == nil || seen[v] || d > 12 {
+					return
+				}
+				seen[v] = true
+				for _, dd := range ssax.Defs(v) {
+					switch x := ssax.Unwrap(dd).(type) {
+					case *ssa.BinOp:
+						bad = append(bad, "the expiry returned is computed by "+x.String()+" at "+c.P.Pos(x.Pos()))
+					case *ssa.Phi:
+						for _, e := range x.Edges {
+							walk(e, d+1)
+						}
+					}
+				}
+			}
+			walk(r.Results[2], 0)
+		}
+		if n == 0 {
+			c.Undecided("R9.5", "std.GetLocal#expiry-as-read", c.P.Pos(gl.Pos()), "GetLocal does not return (data, flags, exp, err)")
+		} else {
+			c.Check(len(bad) == 0, "R9.5", "std.GetLocal#expiry-as-read", c.P.Pos(gl.Pos()), "the expiry is handed on as read from the reply",
+				strings.Join(uniq(bad), "; ")+": the lifetime the get back-fill gives the L1 copy is no longer L2's (it wraps or becomes 0 = never when the item is about to expire)")
+		}
+	}
 	// (a) std.realHandleGetE: hit response Exptime <- GetLocal#2 with readExp == true
 	fn := findFunc(c, "handlers/memcached/std", "realHandleGetE", roleStdGetE)
 	if fn == nil {
